@@ -29,7 +29,7 @@ def check_detachable(values: Iterable[base.RawModel]) -> None:
     """Raises before anything is modified if any value cannot be detached."""
     for value in values:
         token_store = value.token_store
-        if token_store and (
+        if token_store is not None and (
                 value.first_token is not token_store.get_first() or
                 value.last_token is not token_store.get_last()):
             raise ValueError('Cannot reuse node. Consider making a copy.')
